@@ -2,7 +2,7 @@
    The theorems are about the generic codec of Model/SchemaM.v; the per-type field lists are
    regenerated from dns/rdtypes/** on every run and checked against `entry_ok` (theorem
    gen_table_ok in the generated file), so that they apply to every generated type. *)
-From DV Require Import Base.Prelude Model.NameM Model.SchemaM Proofs.SchemaThm.
+From DV Require Import Base.Prelude Model.NameM Model.SchemaM Proofs.SchemaThm Proofs.SchemaFix Proofs.SchemaTable.
 Open Scope Z_scope.
 
 (* from_wire(to_wire(x)) = x for every well-formed schema and every value the constructor
@@ -42,6 +42,38 @@ Theorem inexact_consumption_is_formerror : forall o fs ck wire cur rdlen vs c,
 Proof. exact SchemaThm.inexact_consumption_is_formerror. Qed.
 Print Assumptions inexact_consumption_is_formerror.
 
+(* second half of the property: an accepted octet string yields a record whose own encoding
+   exists, decodes to the same record, and is a fixed point of decode-then-encode *)
+Theorem schema_fixed_point : forall fs ck wire cur rdlen vs,
+  schema_wf fs = true ->
+  decode_rdata None fs ck wire cur rdlen = Ok vs ->
+  exists w', encode_rdata None fs ck vs = Ok w' /\
+             decode_rdata None fs ck w' 0 (length w') = Ok vs /\
+             (forall vs', decode_rdata None fs ck w' 0 (length w') = Ok vs' ->
+                          encode_rdata None fs ck vs' = Ok w').
+Proof. exact schema_fixed_point_none. Qed.
+Print Assumptions schema_fixed_point.
+
+(* the same two statements between a type's WRITER field list and its READER field list, for
+   every entry of any table that passes entry_ok (the generated file instantiates them on the
+   table read from dns/rdtypes/** in this run: gen_table_roundtrip, gen_table_fixed_point) *)
+Theorem table_roundtrip : forall tbl e w r ck vs b A P,
+  forallb entry_ok tbl = true -> In e tbl -> e_codec e = CSchema w r ck ->
+  encode_rdata None (map fst w) ck vs = Ok b ->
+  decode_rdata None (map fst r) ck (A ++ b ++ P) (length A) (length b) = Ok vs.
+Proof. exact table_roundtrip_none. Qed.
+Print Assumptions table_roundtrip.
+
+Theorem table_fixed_point : forall tbl e w r ck wire cur rdlen vs,
+  forallb entry_ok tbl = true -> In e tbl -> e_codec e = CSchema w r ck ->
+  decode_rdata None (map fst r) ck wire cur rdlen = Ok vs ->
+  exists w', encode_rdata None (map fst w) ck vs = Ok w' /\
+             decode_rdata None (map fst r) ck w' 0 (length w') = Ok vs /\
+             (forall vs', decode_rdata None (map fst r) ck w' 0 (length w') = Ok vs' ->
+                          encode_rdata None (map fst w) ck vs' = Ok w').
+Proof. exact table_fixed_point_none. Qed.
+Print Assumptions table_fixed_point.
+
 (* ---------- non-vacuity: the hypotheses are satisfiable on realistic records ---------- *)
 Definition mx_schema := [FS (FU 2 65535); FS (FName true)].
 Definition mx_value := [VS (VI 10); VS (VN [[109; 97; 105; 108]; [101; 120]; []])].
@@ -68,4 +100,20 @@ Proof. eexists. split; reflexivity. Qed.
 (* trailing octets are refused (inexact consumption) *)
 Example a_record_trailing_octet :
   decode_rdata None [FRemN 4] CkNone [1; 2; 3; 4; 5] 0 5 = Lib eFormError.
+Proof. reflexivity. Qed.
+
+(* a table entry as the translator emits it (A: reader get_remaining + exact length, writer 4 octets) *)
+Example a_entry_ok :
+  entry_ok (mk_entry 1 1 [(FS (FFixed 4), 0)] [(FRemN 4, 0)] CkNone) = true.
+Proof. reflexivity. Qed.
+(* a width slip on one side only is rejected *)
+Example mx_width_slip_rejected :
+  entry_ok (mk_entry 255 15 [(FS (FU 4 65535), 0); (FS (FName true), 1)]
+                            [(FS (FU 2 65535), 0); (FS (FName true), 1)] CkNone) = false.
+Proof. reflexivity. Qed.
+(* ... and so is a swap of two equally wide fields *)
+Example srv_swap_rejected :
+  entry_ok (mk_entry 255 33
+     [(FS (FU 2 65535), 1); (FS (FU 2 65535), 0); (FS (FU 2 65535), 2); (FS (FName true), 3)]
+     [(FS (FU 2 65535), 0); (FS (FU 2 65535), 1); (FS (FU 2 65535), 2); (FS (FName true), 3)] CkNone) = false.
 Proof. reflexivity. Qed.
